@@ -25,6 +25,7 @@ func c09(c *eng.Ctx, r *eng.Report) {
 		"R9.4 values cross the codec verbatim — every call made by a codec function of middleware/types (and the same-package helpers it reaches) is a reviewed value-preserving conversion, a generated getter or a sibling codec function, and no output element aliases a loop variable that the next iteration overwrites; no floating-point value appears in a codec function (integers decoded through float64 are rounded above 2^53). " +
 		"R9.5 inside the parsers (UnMarshal*, PbTo*) a Go-side pointer that a converter may have left nil — the result of a converter with a nil return, or a struct field such a result was stored in (Block.Header) — is dereferenced only under a nil test. " +
 		"R9.6 an encoder sets every protobuf field that is `req` by its struct tag on every path (proto.Marshal fails for the whole message — and a block carrying it — when a required field is nil, and the pool ignores that error); " +
+		"R9.8 a decoded list owns one storage cell per entry: when a codec function hands out the address of an element of a slice it made (`append(out, &cells[i])`), that slice has exactly one cell per input entry (`make([]T, len(in))`) — a smaller, recycled block of cells makes later entries overwrite earlier ones through the pointers already handed out; " +
 		"R9.7 no codec function appends to a slice it made with a non-zero length (`make([]T, len(src))` followed by append doubles the list: n zero values, then the real ones). " +
 		"Not decided: value equality after a round trip (nil-vs-empty slices, time zones)."
 	r.Assume = []string{"golang/protobuf proto2 Unmarshal returns an error when a `req` field is absent", "generated GetX() accessors are nil-safe"}
@@ -35,6 +36,7 @@ func c09(c *eng.Ctx, r *eng.Report) {
 	c09FloatFree(c, r)
 	c09RequiredSet(c, r)
 	c09MakeLenAppend(c, r)
+	c09ElementStorage(c, r)
 	c09GoNil(c, r)
 }
 
@@ -899,5 +901,69 @@ func c09MakeLenAppend(c *eng.Ctx, r *eng.Report) {
 	}
 	if bad == 0 {
 		r.Pass(rule, "make-len-append:none", "", fmt.Sprintf("%d appends in codec functions, none to a slice made with a non-zero length", n))
+	}
+}
+
+// c09ElementStorage: see R9.8.
+func c09ElementStorage(c *eng.Ctx, r *eng.Report) {
+	const rule = "R9.8"
+	r.Min(rule, 1)
+	n, bad := 0, 0
+	for _, fn := range codecCone(c) {
+		if fn.Blocks == nil {
+			continue
+		}
+		for _, s := range eng.Sites(fn) {
+			if s.Name() != "builtin:append" || len(s.Common().Args) < 2 {
+				continue
+			}
+			n++
+			// the appended values: a varargs slice built from an array alloc
+			sl, ok := s.Common().Args[1].(*ssa.Slice)
+			if !ok {
+				continue
+			}
+			arr, ok := sl.X.(*ssa.Alloc)
+			if !ok {
+				continue
+			}
+			for _, ref := range *arr.Referrers() {
+				ia, isIA := ref.(*ssa.IndexAddr)
+				if !isIA {
+					continue
+				}
+				for _, r2 := range *ia.Referrers() {
+					st, isSt := r2.(*ssa.Store)
+					if !isSt {
+						continue
+					}
+					cell, isCell := st.Val.(*ssa.IndexAddr)
+					if !isCell {
+						continue
+					}
+					mk, isMk := cell.X.(*ssa.MakeSlice)
+					if !isMk {
+						if phi, isPhi := cell.X.(*ssa.Phi); isPhi {
+							for _, e := range phi.Edges {
+								if m2, ok2 := e.(*ssa.MakeSlice); ok2 {
+									mk, isMk = m2, true
+								}
+							}
+						}
+					}
+					if !isMk {
+						continue
+					}
+					if d := eng.Desc(mk.Len); strings.HasPrefix(d, "builtin:len(") {
+						continue // one cell per input entry
+					}
+					bad++
+					r.Fail(rule, "element-storage:"+eng.FuncName(fn), c.Pos(s.Pos()), eng.FuncName(fn)+" hands out the address of an element of a slice of "+eng.Desc(mk.Len)+" cells, not one cell per input entry: when the cells are reused the pointers already in the result alias later entries — a list longer than the block comes back with earlier entries replaced by later ones (different hashes and nonces, body no longer matching the header)")
+				}
+			}
+		}
+	}
+	if bad == 0 {
+		r.Pass(rule, "element-storage:none", "", fmt.Sprintf("%d appends in codec functions, no address of a recycled cell handed out", n))
 	}
 }
